@@ -96,8 +96,8 @@ def run(tier):
     ndir = 25
   else:
     sk3 = [p for p in gen.skeletons(3) if p.name.count('>') == 2]
-    progs = sk + rnd.sample(sk3, 500) + gen.random_programs(400, R.seed + 3)
-    ndir = 200
+    progs = sk + rnd.sample(sk3, 150) + gen.random_programs(200, R.seed + 3)
+    ndir = 100
   progs += [gen.Prog(n, s, {'extra'}, C01.EXTRA_GLOBS.get(n)) for n, s in C01.EXTRA]
   dirs = [directive_program(R.seed, i) for i in range(ndir)]
   progs += dirs
